@@ -262,10 +262,10 @@ fn lex_str_literal(lx: &mut Lexer<'_, Token>) -> Result<String, LexErr> {
         buf.push_str(left);
         match mid {
             "\\" => {
-                // the next character is part of the escape:
-                let esc = right.as_bytes()
-                    .first()
-                    .unwrap_or_else(|| unreachable!("expected character after escape")); // there always has to be one, cause last character is not \
+                // the next character is part of the escape.
+                // If the backslash is the last character of the line, 
+                // there is nothing to escape and the literal cannot be closed on this line:
+                let Some(esc) = right.as_bytes().first() else { break };
                 match esc {
                     b'n'  => buf.push('\n'),
                     b'r'  => buf.push('\r'),
